@@ -412,6 +412,31 @@ def run(rep, facts, tier):
             rep.add('C03.R6', 'C03.R6:unsafe-fn:%s' % fn, ok, 'C API entry point (FFI contract)' if ok else 'unsafe fn outside the C API', fn, f.j['span'],
                     nontrivial=False)
     rep.floor('C03.R6 unsafe blocks', len(ub), 1)
+    # a raw pointer handed out (returned) must not point into a value this function owns and drops: as_ptr() on a local
+    # temporary (e.g. the Cow::Owned copy bytestr() makes for an unaligned value) dangles as soon as the function returns
+    n_ptr = 0
+    for fn, f in sorted(fx.fns.items()):
+        ret = f.expr_of_local(0)
+        for bb, t in f.calls():
+            c = callee_of(t) or ''
+            if not (c.endswith('::as_ptr') or c.endswith('::as_mut_ptr')) or not t['args']:
+                continue
+            if not any(isinstance(x, tuple) and x[0] == 'call' and x[1] == c and x[3] == f.obb(bb) for x in expr_walk(ret)):
+                continue
+            n_ptr += 1
+            # root local of the receiver
+            recv = f.expr_of_operand(t['args'][0])
+            owned_tmp = None
+            for x in expr_walk(recv):
+                if isinstance(x, tuple) and x[0] == 'call' and x[1] in fx.fns and ('Cow' in fx.fns[x[1]].local_ty(0) or 'Vec<' in fx.fns[x[1]].local_ty(0)
+                                                                                   or 'String' in fx.fns[x[1]].local_ty(0)):
+                    owned_tmp = x[1]
+            ok = owned_tmp is None
+            rep.add('C03.R6', 'C03.R6:returned-pointer:%s' % fn, ok,
+                    'the pointer points into storage that outlives the call' if ok else
+                    '%s returns as_ptr() of the value %s produced: when that value is an owned copy (Cow::Owned / Vec) it is dropped on return and '
+                    'the caller reads freed memory' % (short(fn), short(owned_tmp)), fn, t.get('at'))
+    rep.add('C03.R6', 'C03.R6:returned-pointers-counted', True, '%d functions return a pointer obtained with as_ptr()' % n_ptr, None, None, nontrivial=False)
 
     # ---------- R7: a clone raises reference counts; code that reads them (or pointer identity) behaves differently
     # once a snapshot exists.  Expected: none.  A copy-on-write helper may test the count to skip the copy, if the
